@@ -198,50 +198,60 @@ fn c12_clock_items() {
     kani::cover!(h == 0);
 }
 
-// @ob tier=quick timeout=900 mem=12
-// @desc offset items %z, %:z, %::z, %:::z for every offset incl. seconds: sign, then hours/minutes with the seconds rounded to the nearest minute (carrying into the hour) for %z and %:z, exact hours:minutes:seconds for %::z, truncated hours for %:::z; two digits each, colons as documented
-// @bounds all offsets in (-24h, 24h) at one-second resolution x 4 offset items; date-time concrete (the offset writer only reads the offset)
-// @funcs DelayedFormat::format_fixed (TimezoneOffset*), OffsetFormat::format
-#[kani::proof]
-#[kani::unwind(9)]
-fn c12_offset_items() {
-    use chrono::format::Fixed;
-    use chrono::{FixedOffset, TimeZone};
-    let secs: i32 = kani::any();
-    kani::assume(secs > -86_400 && secs < 86_400);
-    let off = FixedOffset::east_opt(secs).unwrap();
-    let dt = off.from_utc_datetime(&NaiveDate::from_ymd_opt(2001, 7, 8).unwrap().and_hms_opt(0, 34, 59).unwrap());
-    let which: u8 = kani::any();
-    kani::assume(which < 4);
-    let fx = match which { 0 => Fixed::TimezoneOffset, 1 => Fixed::TimezoneOffsetColon, 2 => Fixed::TimezoneOffsetDoubleColon, _ => Fixed::TimezoneOffsetTripleColon };
-    let item = [Item::Fixed(fx)];
-    let mut buf = Buf::<12>::new();
-    assert!(dt.format_with_items(item.iter()).write_to(&mut buf).is_ok() && !buf.overflow);
-    let b = &buf.b;
-    let a = if secs < 0 { -secs } else { secs } as u32;
-    assert!(b[0] == if secs < 0 { b'-' } else { b'+' });
-    let d2 = |i: usize| -> u32 { ((b[i] - b'0') * 10 + (b[i + 1] - b'0')) as u32 };
-    let isd = |i: usize| -> bool { b[i] >= b'0' && b[i] <= b'9' && b[i + 1] >= b'0' && b[i + 1] <= b'9' };
-    match which {
-        0 => {
-            let m = (a + 30) / 60;
-            assert!(buf.len == 5 && isd(1) && isd(3) && d2(1) == m / 60 && d2(3) == m % 60);
+// One harness per offset item (a symbolic item multiplies the formatting paths past the quick cap).
+macro_rules! offset_item {
+    ($name:ident, $fx:expr, $which:expr) => {
+        // @ob tier=quick timeout=900 mem=12
+        // @desc one offset item of %z, %:z, %::z, %:::z for every offset incl. seconds: sign, then hours/minutes with the seconds rounded to the nearest minute (carrying into the hour) for %z and %:z, exact hours:minutes:seconds for %::z, truncated hours for %:::z; two digits each, colons as documented
+        // @bounds all offsets in (-24h, 24h) at one-second resolution; date-time concrete (the offset writer only reads the offset)
+        // @funcs DelayedFormat::format_fixed (TimezoneOffset*), OffsetFormat::format
+        #[kani::proof]
+        #[kani::unwind(9)]
+        fn $name() {
+            use chrono::FixedOffset;
+            let secs: i32 = kani::any();
+            kani::assume(secs > -86_400 && secs < 86_400);
+            // DelayedFormat::new_with_offset keeps (offset.to_string(), offset.fix()); the name is only used by %Z.
+            // A private Offset type with an empty Display avoids core::fmt's padding machinery, which is not the subject.
+            let off = QuietOffset(FixedOffset::east_opt(secs).unwrap());
+            let date = NaiveDate::from_ymd_opt(2001, 7, 8).unwrap();
+            let time = NaiveTime::from_hms_opt(12, 34, 59).unwrap();
+            let which: u8 = $which;
+            let item = [Item::Fixed($fx)];
+            let mut buf = Buf::<12>::new();
+            let df = chrono::format::DelayedFormat::new_with_offset(Some(date), Some(time), &off, item.iter());
+            assert!(df.write_to(&mut buf).is_ok() && !buf.overflow);
+            let b = &buf.b;
+            let a = if secs < 0 { -secs } else { secs } as u32;
+            assert!(b[0] == if secs < 0 { b'-' } else { b'+' });
+            let d2 = |i: usize| -> u32 { ((b[i] - b'0') * 10 + (b[i + 1] - b'0')) as u32 };
+            let isd = |i: usize| -> bool { b[i] >= b'0' && b[i] <= b'9' && b[i + 1] >= b'0' && b[i + 1] <= b'9' };
+            match which {
+                0 => {
+                    let m = (a + 30) / 60;
+                    assert!(buf.len == 5 && isd(1) && isd(3) && d2(1) == m / 60 && d2(3) == m % 60);
+                }
+                1 => {
+                    let m = (a + 30) / 60;
+                    assert!(buf.len == 6 && isd(1) && b[3] == b':' && isd(4) && d2(1) == m / 60 && d2(4) == m % 60);
+                }
+                2 => {
+                    assert!(buf.len == 9 && isd(1) && b[3] == b':' && isd(4) && b[6] == b':' && isd(7));
+                    assert!(d2(1) == a / 3600 && d2(4) == a / 60 % 60 && d2(7) == a % 60);
+                }
+                _ => {
+                    assert!(buf.len == 3 && isd(1) && d2(1) == a / 3600);
+                }
+            }
+            kani::cover!(a % 60 >= 30 && (a / 60) % 60 == 59);
+            kani::cover!(secs < 0);
         }
-        1 => {
-            let m = (a + 30) / 60;
-            assert!(buf.len == 6 && isd(1) && b[3] == b':' && isd(4) && d2(1) == m / 60 && d2(4) == m % 60);
-        }
-        2 => {
-            assert!(buf.len == 9 && isd(1) && b[3] == b':' && isd(4) && b[6] == b':' && isd(7));
-            assert!(d2(1) == a / 3600 && d2(4) == a / 60 % 60 && d2(7) == a % 60);
-        }
-        _ => {
-            assert!(buf.len == 3 && isd(1) && d2(1) == a / 3600);
-        }
-    }
-    kani::cover!(which == 0 && a % 60 >= 30 && (a / 60) % 60 == 59);
-    kani::cover!(which == 2 && secs < 0);
+    };
 }
+offset_item!(c12_offset_z, chrono::format::Fixed::TimezoneOffset, 0);
+offset_item!(c12_offset_colon, chrono::format::Fixed::TimezoneOffsetColon, 1);
+offset_item!(c12_offset_double_colon, chrono::format::Fixed::TimezoneOffsetDoubleColon, 2);
+offset_item!(c12_offset_triple_colon, chrono::format::Fixed::TimezoneOffsetTripleColon, 3);
 
 // @ob tier=quick timeout=900 mem=12
 // @desc %Y for years 0..=9999 with every padding modifier: zero padding to four digits by default, `%-Y` without padding, `%_Y` space padded to width four, never a sign (quick instance of c12_year, which covers all years)
